@@ -1746,4 +1746,23 @@ theorem fillOutcome_step_wf (S : Schema) (hdet : PM.C11.detB S = true) (hfill : 
       exact PM.C11.fit_emits_wf S hdet hfill hwrap hlab d1 cur cur _ hv hattrs (by simp [Slice.wf]) (Nat.le_refl _)
         hrun st hr
 
+/-- **the step the filler request records inserts no text**, whichever kind it is (for a replace-around
+    answer this was the open item of `clearIncompatibleF_spec`): the text of its slice is an in-order
+    subsequence of the text of the requested fillers (`replaceStep_text`: the Fitter never invents
+    text), and fillers carry none (`retypeFill_notext`) -/
+theorem fillOutcome_step_notext (S : Schema) (pty : TypeId) (q : Nat) (d1 : Node) (cur : Nat) (fs : List Step)
+    (ho : FillOutcome S pty q d1 cur fs) (st : Step) (hst : st ∈ fs) :
+    ∃ sl', st.sliceOf = some sl' ∧ textUnits sl'.toks = [] := by
+  cases ho with
+  | validEnd _ => simp at hst
+  | asked r _ hr =>
+    cases r with
+    | none => simp at hst
+    | some s0 =>
+      simp only [Option.toList_some, List.mem_singleton] at hst
+      subst hst
+      obtain ⟨sl2, hs2, hsub⟩ := replaceStep_text S d1 _ _ _ _ (Slice.wf_closed _) hr
+      rw [Slice.toks_closed, retypeFill_notext] at hsub
+      exact ⟨sl2, hs2, List.eq_nil_of_sublist_nil hsub⟩
+
 end PM.C13
